@@ -318,7 +318,8 @@ def gen(shard, rng, tier):
                             continue
                         L = rng.choice(LEGAL)
                         prefix = "0x" + "".join(rng.choice("0123456789abcdef") for _ in range(2))
-                        ent = {"MODE": "prng", "SEED": rng.randrange(2**62), "CAP": 60000}
+                        from ..run.core import vanity_cap
+                        ent = {"MODE": "prng", "SEED": rng.randrange(2**62), "CAP": vanity_cap(2, j)}
                         ent["FAIL_FROM" if frm else "FAIL_AT"] = k
                         if rng.random() < 0.4:
                             ent["ERRNO"] = rng.choice([4, 11, 14, 38])
@@ -329,7 +330,8 @@ def gen(shard, rng, tier):
             L = rng.choice(LEGAL)
             prefix = "0x" + rng.choice("0123456789abcdefABCDEF")
             j = rng.choice([0, 1, 2, 8])
-            ent = {"MODE": rng.choice(["prng", "pass"]), "SEED": rng.randrange(2**62), "CAP": 3000}
+            from ..run.core import vanity_cap
+            ent = {"MODE": rng.choice(["prng", "pass"]), "SEED": rng.randrange(2**62), "CAP": vanity_cap(1, j)}
             yield {"j": "vanity", "profile": "release", "x": {"cls": "vanity", "L": L},
                    "steps": [{"cli": {"argv": ["new", "-n", str(L), "--vanity-prefix", prefix, "-j", str(j)], "ent": ent, "timeout": 300}}]}
     else:
